@@ -415,8 +415,11 @@ def finish(ctx, level_extra=None):
         "wall_s": round(time.time() - ctx.t0, 2),
         "violations": len(violations),
     }
-    os.makedirs(os.path.join(VERIF, "evidence"), exist_ok=True)
-    json.dump(ev, open(os.path.join(VERIF, "evidence", f"{pid}.json"), "w"), indent=1, default=str)
+    # (the self-test helpers, which run the checks against deliberately modified copies of the repository, redirect the
+    # evidence so that /verif/evidence always describes runs against /repo itself)
+    evdir = os.environ.get("VERIF_EVIDENCE_DIR") or os.path.join(VERIF, "evidence")
+    os.makedirs(evdir, exist_ok=True)
+    json.dump(ev, open(os.path.join(evdir, f"{pid}.json"), "w"), indent=1, default=str)
     for path, suffix in violations:
         print(f"VIOLATION property={pid} replay={path}{suffix}")
     sys.stdout.flush()
